@@ -9,7 +9,8 @@ Executable model of
 * the comparison-function table `_comparation_functions` (`:187-234`), including the `KeyError`
   for a goal whose `get_logic()` is not in the table (field `Goal.supported`, finding F24b);
 * the generic loop `ExternalOptimizerMixin._optimize` (`:487-524`), `boxed_optimize`,
-  `lexicographic_optimize` (as repaired for F24a: `_cleanup` also on success), `pareto_optimize`;
+  `lexicographic_optimize` (as repaired for F24a: `_cleanup` also on success), `pareto_optimize`
+  (as repaired for F24d: `try/finally`, so that an abandoned generator restores the solver);
 * both mix-ins: `SUAOptimizerMixin` (assumption based) and `IncrementalOptimizerMixin`
   (push/pop based) -- `_optimization_check_progress`, `_lexicographic_opt`,
   `_pareto_check_progress`, `_pareto_block_model`;
@@ -65,20 +66,64 @@ structure Atom where
 
 inductive Constraint
   | atom (a : Atom)                 -- a search cut or a Pareto `get_constraint`
-  | eq (g : Nat) (v : Int)          -- `Equals(term_g, val)` of the lexicographic routine
+  | eq (g : Nat) (dom : Dom) (v : Int)  -- `Equals(term_g, val)` of the lexicographic routine
   | disj (as : List Atom)           -- `Or(get_constraint(True) …)` of the Pareto routine
   deriving DecidableEq, Repr, Inhabited
+
+/-! ## Meaning of the constraints (SMT-LIB semantics of the operators the table selects)
+
+A model assigns to the `i`-th goal term a *raw* value `val i m`: an integer or a bit-vector.  The
+atom built with operator family `dom` is evaluated with the operators of that family --
+`LT/LE` on integers, `BVULT/BVULE` resp. `BVSLT/BVSLE` on bit-vectors (`>`/`≥` are the same
+operators with swapped arguments, as in `FormulaManager.BVUGT` …) -- against the constant
+`mgr.Int(b)` / `mgr.BV(b, w)` / `mgr.SBV(b, w)`, i.e. `BitVec.ofInt w b`.  Nothing here looks at the
+goal: whether the operator family fits the goal's signedness is what the theorems have to show. -/
+
+inductive Val
+  | int (v : Int)
+  | bv (w : Nat) (b : BitVec w)
+
+def Cmp.evalU {w : Nat} : Cmp → BitVec w → BitVec w → Bool
+  | .lt, a, b => a.ult b
+  | .le, a, b => a.ule b
+  | .gt, a, b => b.ult a
+  | .ge, a, b => b.ule a
+
+def Cmp.evalS {w : Nat} : Cmp → BitVec w → BitVec w → Bool
+  | .lt, a, b => a.slt b
+  | .le, a, b => a.sle b
+  | .gt, a, b => b.slt a
+  | .ge, a, b => b.sle a
+
+/-- `search_is_sat` / `get_value`: how a goal of sort-and-signedness `dom` reads a model value
+    (`constant_value()`, resp. `bv_signed_value()` for a signed goal) -/
+def readObj : Dom → Val → Int
+  | .int, .int v => v
+  | .ubv _, .bv _ b => b.toNat
+  | .sbv _, .bv _ b => b.toInt
+  | _, _ => 0
+
+/-- the value has the sort of a goal term of that `dom` -/
+def ValTyped : Dom → Val → Prop
+  | .int, .int _ => True
+  | .ubv w, .bv w' _ => w' = w
+  | .sbv w, .bv w' _ => w' = w ∧ 0 < w
+  | _, _ => False
 
 section Sem
 variable {M : Type}
 
-def Atom.holds (obj : Nat → M → Int) (m : M) (a : Atom) : Bool :=
-  a.cmp.eval (obj a.g m) a.bound
+def Atom.holds (val : Nat → M → Val) (m : M) (a : Atom) : Bool :=
+  match a.dom, val a.g m with
+  | .int, .int v => a.cmp.eval v a.bound
+  | .ubv w, .bv w' b => if h : w' = w then a.cmp.evalU (h ▸ b) (BitVec.ofInt w a.bound) else false
+  | .sbv w, .bv w' b => if h : w' = w then a.cmp.evalS (h ▸ b) (BitVec.ofInt w a.bound) else false
+  | _, _ => false
 
-def Constraint.holds (obj : Nat → M → Int) (m : M) : Constraint → Bool
-  | .atom a => a.holds obj m
-  | .eq g v => obj g m == v
-  | .disj as => as.any (fun a => a.holds obj m)
+def Constraint.holds (val : Nat → M → Val) (m : M) : Constraint → Bool
+  | .atom a => a.holds val m
+  | .eq g dom v => readObj dom (val g m) == v
+  | .disj as => as.any (fun a => a.holds val m)
 
 end Sem
 
@@ -93,7 +138,7 @@ def nsCmp (g : Goal) : Cmp := match g.dir with | .min => .le | .max => .ge
 def castOk : Dom → Int → Bool
   | .int, _ => true
   | .ubv w, v => decide (0 ≤ v ∧ v < (2 : Int) ^ w)
-  | .sbv w, v => decide (-((2 : Int) ^ (w - 1)) ≤ v ∧ v ≤ (2 : Int) ^ (w - 1) - 1)
+  | .sbv w, v => decide (0 < w ∧ -((2 : Int) ^ (w - 1)) ≤ v ∧ v ≤ (2 : Int) ^ (w - 1) - 1)
 
 /-! ## `OptSearchInterval` -/
 
@@ -308,7 +353,7 @@ def lexLoop (o : Oracle M) (obj : Nat → M → Int) (mx : Mixin) (strat : Strat
     match lexStep o obj mx strat g gi cd fuel s with
     | (.done none, s1) => (.done none, s1.pop)
     | (.done (some (m, v)), s1) =>
-      lexLoop o obj mx strat fuel rest (cd ++ [.eq gi v]) (some m) (vals ++ [v]) s1
+      lexLoop o obj mx strat fuel rest (cd ++ [.eq gi g.dom v]) (some m) (vals ++ [v]) s1
     | (e, s1) => (e.cast none, s1)
 
 /-- `lexicographic_optimize` -/
@@ -346,7 +391,7 @@ def paretoOuter (o : Oracle M) (obj : Nat → M → Int) (mx : Mixin) (goals : L
   | n + 1, cd, acc, s =>
     match paretoInner o obj mx goals cd fuel none s.push with     -- _pareto_setup
     | (.done last, s2) =>
-      let s3 := s2.pop                                             -- _pareto_cleanup
+      let s3 := s2.pop                                             -- _pareto_cleanup (`finally`)
       (match last with
        | none => (.done acc, s3.pop)                               -- terminated; _cleanup
        | some m =>
@@ -357,11 +402,41 @@ def paretoOuter (o : Oracle M) (obj : Nat → M → Int) (mx : Mixin) (goals : L
          | .incr => paretoOuter o obj mx goals fuel n cd acc' (s3.add blk))
     | (e, s2) => (e.cast [], s2)
 
+/-- `pareto_optimize(goals)` consumed for `k` solutions and then abandoned (`close()`, `break`, or
+    garbage collection raise `GeneratorExit` at the `yield`): the `finally` of the repaired routine
+    runs `_cleanup`.  `k = 0` is treated like `k = 1` (a generator that is never advanced does not
+    even call `_setup`). -/
+def paretoTake (o : Oracle M) (obj : Nat → M → Int) (mx : Mixin) (goals : List (Nat × Goal))
+    (fuel : Nat) : Nat → Nat → List Constraint → List (M × List Int) → Solver M →
+    Outcome (List (M × List Int)) × Solver M
+  | _, 0, _, _, s => (.fuel, s)
+  | k, n + 1, cd, acc, s =>
+    match paretoInner o obj mx goals cd fuel none s.push with
+    | (.done last, s2) =>
+      let s3 := s2.pop
+      (match last with
+       | none => (.done acc, s3.pop)
+       | some m =>
+         let blk := Constraint.disj (paretoAtoms obj true goals m)
+         let acc' := acc ++ [(m, goals.map (fun (gi, _) => obj gi m))]
+         if k ≤ 1 then (.done acc', s3.pop)                        -- abandoned at this `yield`
+         else match mx with
+         | .sua => paretoTake o obj mx goals fuel (k - 1) n (cd ++ [blk]) acc' s3
+         | .incr => paretoTake o obj mx goals fuel (k - 1) n cd acc' (s3.add blk))
+    | (e, s2) => (e.cast [], s2)
+
+/-- `itertools.islice(pareto_optimize(goals), k)` followed by `close()` -/
+def paretoPrefix (o : Oracle M) (obj : Nat → M → Int) (mx : Mixin) (goals : List (Nat × Goal))
+    (fuel : Nat) (k : Nat) (s : Solver M) : Outcome (List (M × List Int)) × Solver M :=
+  if goals.any (fun (_, g) => !g.supported) then (.keyErr, s)
+  else if goals.isEmpty then (.emptyGoals, s.push.push.pop.pop)
+  else paretoTake o obj mx goals fuel k fuel [] [] s.push
+
 /-- `list(pareto_optimize(goals))` -/
 def pareto (o : Oracle M) (obj : Nat → M → Int) (mx : Mixin) (goals : List (Nat × Goal))
     (fuel : Nat) (s : Solver M) : Outcome (List (M × List Int)) × Solver M :=
   if goals.any (fun (_, g) => !g.supported) then (.keyErr, s)      -- OptPareto.__init__, before _setup
-  else if goals.isEmpty then (.emptyGoals, s.push.push)           -- `objs[0]` after _setup, _pareto_setup
+  else if goals.isEmpty then (.emptyGoals, s.push.push.pop.pop)   -- `objs[0]` after _setup, _pareto_setup; both `finally`
   else paretoOuter o obj mx goals fuel fuel [] [] s.push
 
 end Search
